@@ -328,14 +328,17 @@ func runC17ConvLine(r *Run, rng *Rng) {
 		off: uint64(rng.Pick(0, 0, 64, 4096, rng.Range(0, 5000))),
 	}
 	v.idx = uint64(rng.Intn(int(v.n) + 1))
+	if v.n > 0 && rng.Chance(80) {
+		v.idx = uint64(rng.Intn(int(v.n)))
+	}
 	addrs := []string{}
 	outs := []string{}
 	for i := 0; i < 8; i++ {
 		var a uint64
-		switch rng.Intn(4) {
+		switch rng.Intn(6) {
 		case 0:
 			a = uint64(rng.Intn(8192))
-		case 1:
+		case 1, 4, 5:
 			a = v.ext(uint64(rng.Intn(1000)), uint64(rng.Intn(int(v.isz)+1)))
 		case 2:
 			a = v.off + uint64(rng.Intn(1<<20))
@@ -390,6 +393,33 @@ func runC17Deep(r *Run, rng *Rng, replay string) {
 		} else {
 			r.Count("deep:straddling-witness-NOT-reproduced")
 			r.Note("straddling witness of read_payload_full_refuted no longer reproduces on the real component: %s", got)
+		}
+	}
+
+	// Props/C17Live.lean liveness_drained_full_refuted: bank-index priority of finalizeBanks starves bank 1 while a
+	// backlogged stream to bank 0 fills the one-entry outgoing buffer in every tick (every response retrieved at once)
+	{
+		starve := c17Cfg{banks: 2, ilv: 6, w: 1, d: 1, lat: 1, row: 8, miss: 5, post: 1, top: 1}
+		ops := []string{}
+		round := func(i int) { ops = append(ops, fmt.Sprintf("w 0 %02x -", i), "t", "o 1") }
+		for i := 0; i < 6; i++ {
+			round(i)
+		}
+		ops = append(ops, "r 40 1", "t", "o 1")
+		for i := 0; i < 60; i++ {
+			round(i)
+		}
+		runC17Scenario(r, starve, ops, false)
+		e := newC17Env(starve)
+		for _, o := range ops {
+			e.op(strings.Fields(o))
+		}
+		got := strings.Join(e.out, " ")
+		if !strings.Contains(got, "d6:") && strings.Contains(got, "w59") {
+			r.Count("deep:bank-priority-starvation-reproduced(request 6 unanswered after 60 drained ticks, 7..59 answered)")
+		} else {
+			r.Count("deep:bank-priority-starvation-NOT-reproduced")
+			r.Note("starvation witness of liveness_drained_full_refuted no longer reproduces on the real component")
 		}
 	}
 
